@@ -2591,6 +2591,9 @@ The what argument tells us what sort of state is expected (allowed values are de
                             differences += diff
                     except OSError:
                         differences += diff
+            elif not utils.isRealFilename(tablefile) and utils.isRealFilename(_tablefile):
+                # the product is being redeclared without a table file, but it has one
+                differences += ["%s != %s" % (tablefile, _tablefile)]
             #
             # check external files
             #
